@@ -219,7 +219,9 @@ def main(rec):
     rec.add_to_set("shapes_covered", shapes)
     rec.distinct_override = rec.counters.get("calls_compared", 0)
     # upstream Fortran drivers
-    targets = buildfarm.FORTRAN_TARGETS if thorough else [t for i, t in enumerate(buildfarm.FORTRAN_TARGETS) if i % 3 == common.seed() % 3]
+    # all upstream drivers in both tiers: they exercise declaration forms the generated shapes do not have (structs,
+    # enums, callbacks, class arguments, char**, multi-dimensional arrays ...)
+    targets = buildfarm.FORTRAN_TARGETS
     ccases = [{"name": n, "targets": ["fortran"]} for n in targets]
     cres = pool.run_cases("vf.buildfarm", ccases, func="corpus_job", timeout=1500)
     for c, rr in zip(ccases, cres):
